@@ -17,6 +17,7 @@ TARGETS = {
  "R9-root-entry-not-restored": ["C03", "C04"],
  "R10-root-answered-from-repeating-entry": ["C17"],
  "R11-root-restore-overwrites-newer-entry": ["C06", "C03"],
+ "R12-counters-overflow": ["C14"],
  "M2-poll-only-at-exactly-10000": ["C04"],
  "M3-insert-keeps-deeper-entry": ["C15"],
  "M4-writer-not-joined": ["C07"],
@@ -25,6 +26,7 @@ TARGETS = {
  "M8-find-compares-low-32-bits": ["C15"],
  "M9-replaced-counts-as-new-slot": ["C15"],
  "M11-stop-does-not-collect": ["C07"],
+ "M12-sizing-exceeds-budget": ["C15"],
 }
 
 def sh(cmd, cwd=None, timeout=3600):
